@@ -50,6 +50,66 @@ func newGateEngine(w *World, gates []gateSpec, isSink func(ssa.Instruction) (str
 	return &gateEngine{w: w, gate: gates, isSink: isSink, skip: skip, memoExpose: map[*ssa.Function]*exposure{}, inprog: map[*ssa.Function]bool{}, memoReach: map[*ssa.Function]int{}}
 }
 
+// deriveWrappers adds, as gates of their own, the rulio functions that *wrap* a gate: functions with an error
+// result none of whose success returns is reachable once the pass edges of the known gates are deleted (so a nil
+// error from the wrapper implies that the wrapped check passed).  A refactoring that moves a check into a helper
+// therefore keeps the rule satisfied.  Iterates to a fixed point (wrappers of wrappers).
+func (g *gateEngine) deriveWrappers(scope func(*ssa.Function) bool) []string {
+	var names []string
+	known := map[*ssa.Function]bool{}
+	for changed := true; changed; {
+		changed = false
+		for _, fn := range g.w.Funcs {
+			if known[fn] || isTestFile(g.w, fn) || fn.Synthetic != "" || (scope != nil && !scope(fn)) {
+				continue
+			}
+			idx := errorResultIndex(fn.Signature)
+			if idx < 0 {
+				continue
+			}
+			ef, nt := g.passEdgeFilter(fn)
+			callsGate := false
+			allInstrs(fn, func(in ssa.Instruction) {
+				if c := callOf(in); c != nil {
+					for _, gs := range g.gate {
+						if gs.IsGate(c) {
+							callsGate = true
+						}
+					}
+				}
+			})
+			if nt == 0 && !callsGate {
+				continue
+			}
+			returnsGateResult := func(in ssa.Instruction, assume map[ssa.Value]bool) bool {
+				if !isSuccessReturn(in, assume) {
+					return false
+				}
+				// `return gate(...)`: the wrapper's error is the gate's own verdict
+				ret := in.(*ssa.Return)
+				v := resolveSpill(ret.Results[idx])
+				for _, gs := range g.gate {
+					gs := gs
+					if gs.FailWhen == "nonnil" && derivesFromCall(v, func(c *ssa.Call) bool { return gs.IsGate(c.Common()) }, gs.Idx) {
+						return false
+					}
+				}
+				return true
+			}
+			if h, _ := reachPSA(fn, nil, returnsGateResult, nil, ef); h != nil {
+				continue
+			}
+			// (a wrapper that only ever returns the gate's own result has no tested branch: nt may be 0 for it)
+			known[fn] = true
+			changed = true
+			f := fn
+			g.gate = append(g.gate, gateSpec{Name: f.Name() + "(wraps " + g.gate[0].Name + ")", FailWhen: "nonnil", Idx: idx, IsGate: func(c *ssa.CallCommon) bool { return c.StaticCallee() == f }})
+			names = append(names, fname(fn))
+		}
+	}
+	return names
+}
+
 // passEdgeFilter deletes the pass edges of the gate tests in fn.
 func (g *gateEngine) passEdgeFilter(fn *ssa.Function) (edgeFilter, int) {
 	type edge struct {
